@@ -96,6 +96,15 @@ CHECKS["C12"] = dict(
    note="Trusted: Lean kernel, Model/Orch.lean (tied through the table snapshot hook), harness. Assumed: SHA-256 collision freedom for derived keys; silent-mode buffer residue noted as an observation. The fix of F09 itself was corrected once by this check (a refused Sign removed the running session's handlers).",
    technique="Lean 4 proof over a table transition system (case analysis of all thread interleavings + simulation for non-interference) + differential correspondence on the real orchestrator")
 
+CHECKS["C11"] = dict(
+   text="Lean 4 theorems over a control-flow model of the built-in DKG KeyGen for every event sequence (any arrivals in any order, any point of silence of any peer, wake-ups and the end of the context anywhere): never a panic, after cancellation the next wake-up returns "
+        "and the call stays returned (cancel_returns, for all prefixes and suffixes), the result is an error unless everything had arrived; the orchestrator's result channel receives at most one value (never blocks a sender); every blocking construct in the functions of a "
+        "KeyGen/Sign call has an escape (census regenerated from source, kernel-decided). Tie: fault-point enumeration on the real backends and the real full stack (every peer x every k, every withheld message), unusable share data. "
+        "Partial: real time, the Go runtime and tss-lib are outside the model.",
+   design="4/C11",
+   note="Trusted: Lean kernel, Model/Ctl.lean (tied by fault enumeration, not step-exact), the blocking-construct extractor, harness. Assumed: Go runtime semantics (Cond, context), generous timing margins; tss-lib internals.",
+   technique="Lean 4 proof over a control-flow state machine for all event sequences + regenerated blocking census + fault-point enumeration on the real code")
+
 NOT_YET = {}
 
 def main():
